@@ -6,6 +6,7 @@ package main
 import (
 	"fmt"
 	"math/rand"
+	"os"
 	"strings"
 	"time"
 
@@ -37,7 +38,12 @@ func NewGen(seed int64, profile string) *Gen {
 		g.stepNo = 3
 		return g
 	}
-	if names := scenariosFor(profile); len(names) > 0 && sr.Float64() < 0.5 {
+	if forced := os.Getenv("VERIF_SCENARIO"); forced != "" && genScenarios[forced] != nil {
+		// (debugging aid: every history starts with the named template)
+		g.Scenario = forced
+		g.script = genScenarios[forced](g)
+		g.stepNo = 3
+	} else if names := scenariosFor(profile); len(names) > 0 && sr.Float64() < 0.5 {
 		g.Scenario = names[sr.Intn(len(names))]
 		g.script = genScenarios[g.Scenario](g)
 		g.stepNo = 3
